@@ -2,6 +2,7 @@
     Statements only; proofs are in Shape.v / Inv.v / Hist.v. *)
 From Coq Require Import List NArith ZArith Bool.
 From Mast Require Import Reload WorldInv Prim Key Tree KeyOrder Codec Store Diff World Erase Build Spec Canon Level Inv Shape Hist.
+From Mast Require Import ReloadB.
 Import ListNotations.
 
 Section GENERIC.
@@ -36,7 +37,7 @@ Theorem C09_invariant_of_histories_partial : forall ops,
   forallb supported ops = true -> winv (wrun empty_world ops) (awrun [] ops).
 Proof. intros ops H. exact (history_invariant ops empty_world [] winv_empty H). Qed.
 
-(** ... and with persist and reload points, many trees, many stores (binary format; side conditions
+(** ... and with persist and reload points, many trees, many stores (either node format; side conditions
     [conds] as in C01_refines_sorted_map): every tree of every reachable world - also one loaded
     from a persisted root - is the reference tree of its abstract contents *)
 Theorem C09_invariant_of_histories : forall ops t tr,
